@@ -490,7 +490,7 @@ static void release_temps(Case& c, Args& A) {
 // ---- one call, differential and tightness checks ------------------------------------
 struct StepOut { bool called, flag_after, flag_after_reset; CallResult cr; StepOut() : called(false), flag_after(false), flag_after_reset(false) {} };
 
-static StepOut step(Case& c, const Fn* f, const Mut& mut, Mode mode, long arm_k, bool reuse) {
+static StepOut step(Case& c, const Fn* f, const Mut& mut, Mode mode, long arm_k, bool reuse, int dry_r = 0) {
   StepOut so;
   Args A;
   synth(c, f, mut, reuse, A);
@@ -555,6 +555,7 @@ static StepOut step(Case& c, const Fn* f, const Mut& mut, Mode mode, long arm_k,
   if (ok && mode == M_ALLOC && cr.fired) {
     hx::checked(1); hx::count("alloc.failure_points");
     if (cr.r >= 0) hx::count("alloc.absorbed");
+    else if (cr.r == dry_r) hx::count("alloc.same_error_as_without_failure");
     else if (cr.r != PPL_ERROR_OUT_OF_MEMORY) { viol(c, "C20.code." + pat + ".oom_reported_as_" + code_name(cr.r), what + ": allocation " + itos(arm_k) + " failed, returned " + code_name(cr.r)); ok = false; }
   }
 
@@ -870,11 +871,11 @@ static void case_alloc(long idx) {
   }
   // dry run to count the allocations of this call, then replay with the k-th one failing
   uint64_t seed = hx::rng()();
-  long total = 0;
+  long total = 0; int dry_r = 0;
   {
     hx::rng().seed(seed); Case d; d.dim = c.dim; d.topo = c.topo;
     StepOut so = step(d, f, Mut(), M_ALLOC, 0, false);
-    if (so.called) total = so.cr.allocs;
+    if (so.called) { total = so.cr.allocs; dry_r = so.cr.r; }
     cleanup(d);
     if (d.failed || !so.called) return;
   }
@@ -887,7 +888,7 @@ static void case_alloc(long idx) {
   for (size_t i = 0; i < ks.size(); ++i) {
     hx::rng().seed(seed); Case d; d.dim = c.dim; d.topo = c.topo;
     hx::tr("-- allocation " + itos(ks[i]) + " of " + itos(total) + " fails\n");
-    step(d, f, Mut(), M_ALLOC, ks[i], false);
+    step(d, f, Mut(), M_ALLOC, ks[i], false, dry_r);
     cleanup(d);
     if (d.failed || hx::st().case_tainted) return;
   }
@@ -985,12 +986,12 @@ static void run_case(uint64_t) {
   else if (p == "seq") case_seq(idx);
   else { fprintf(stderr, "ciface: unknown profile %s\n", p.c_str()); exit(2); }
   ++g_cases_since_lsan;
-  long every = hx::opt().geti("lsan_every", 64);
+  long every = hx::opt().geti("lsan_every", p == "alloc" ? 0 : 64);   // leaks inside GMP after an injected failure are not C20's
   if (every > 0 && (long) g_cases_since_lsan >= every) { leak_check("after a case"); g_cases_since_lsan = 0; }
 }
 
 static void at_exit() {
-  leak_check("at the end of the run");
+  if (hx::opt().profile != "alloc") leak_check("at the end of the run");
   if (hx::opt().first == 0) {
     const std::vector<const Fn*>& v = all_fns();
     unsigned long twin = 0, special = 0, none = 0;
@@ -1011,5 +1012,7 @@ int main(int argc, char** argv) {
   if (ppl_initialize() < 0) { fprintf(stderr, "ciface: ppl_initialize failed\n"); return 2; }
   ppl_set_error_handler(cif::cif_error_handler);
   cif::install_gmp_allocators();
-  return hx::main_loop(argc, argv, cif::run_case, cif::at_exit);
+  int rc = hx::main_loop(argc, argv, cif::run_case, cif::at_exit);
+  if (hx::opt().profile == "alloc") { fflush(0); _exit(rc); }   // no at-exit leak report: GMP itself leaks when its allocator throws
+  return rc;
 }
